@@ -18,3 +18,15 @@ i, j = s.index(a) + len(a), s.index(b)
 s = s[:i] + "\n" + "\n".join(rows) + "\n" + s[j:]
 open(p, "w").write(s)
 print(len(rows) - 2, "seeded changes")
+
+# ---- lists of repaired defects and recorded findings, from known_findings.json
+kf = json.load(open(os.path.join(root, "known_findings.json")))
+s = open(p).read()
+for tag, lines in (("FIXED-LIST", ["* `%s`" % x for x in kf["fixed"]] + ["", "(%d repairs)" % len(kf["fixed"])]),
+                   ("FINDINGS-LIST", ["* **%s** (%s): %s" % (f["id"], f["property"], f["what"]) for f in kf["findings"]])):
+    a, b = "<!-- %s-BEGIN -->" % tag, "<!-- %s-END -->" % tag
+    if a in s:
+        i, j = s.index(a) + len(a), s.index(b)
+        s = s[:i] + "\n" + "\n".join(lines) + "\n" + s[j:]
+open(p, "w").write(s)
+print(len(kf["fixed"]), "repairs,", len(kf["findings"]), "findings")
